@@ -72,5 +72,5 @@ PROPS = {
                 not_under_contract=['Validate::execute exit-code folding (inline `if status != SUCCESS { exit_code = status }`, I/O)', 'StructuredEvaluator::evaluate / CommonStructuredReporter::report (closures, I/O, &mut unsizing)', 'main'], explanation=''),
 }
 
-HOOK_COMMITS = ['cb466a2']
+HOOK_COMMITS = ['cb466a2', 'c4d9d89']
 FIX_COMMITS = ['d9c6e7f', '4e65a31', '80b223b', '52f4f87', 'ecd0109']
